@@ -1,4 +1,5 @@
 import TmVerif.Proofs.LRSoundPanic
+import TmVerif.Proofs.LRCompleteAccept
 /-!
 C01 — soundness of the table-driven LR parser runtime (`gen/templates/go_parser.go.tmpl`, model
 `TmVerif.LR.run`) with respect to the decidable certificate check `certOk` (Model/LRSound.lean),
@@ -161,5 +162,149 @@ example : Reach exT exInp 0 exC3 ∧ (∃ c1, decode exT exInp exC3 = some (c1, 
     rw [h] at hd
     injection hd with hd
     exact ⟨c1, by rw [← hd]⟩
+
+/-! ## Completeness (Jourdan–Pottier–Leroy style certificate `complOk`, Model/LRComplete.lean)
+
+`complOk g t cc = true` (LR(1)-style items per table state, closed under closure/goto, every
+complete item's lookahead terminals answered by a reduction, closed nullable/FIRST) is evaluated by
+the driver on the REAL `lalr.Tables` of every sampled grammar (certificate computed from the
+LALR(1) reference construction). -/
+section completeness
+open TmVerif.LRComplete
+
+/-- Completeness: for tables with a valid completeness certificate, for every token string
+(symbols are terminals other than EOI) and every input `i`: if the whole token string is a
+sentence of input `i`, then the runtime model accepts (with enough fuel). For an input without
+the end-of-input requirement the run may stop after a shorter prefix — which is a sentence too,
+by `C01_lr_sound`. -/
+theorem C01_lr_complete (g : Grammar) (t : Tables) (cc : CCert) (inp : Input) (i : Nat)
+    (hc : complOk g t cc = true)
+    (htok : ∀ tk ∈ inp.toks.toList, 0 < tk.sym ∧ tk.sym < (t.nTerms : Int))
+    (hsent : Sentence g i (inp.toks.toList.map (fun tk => tk.sym.toNat))) :
+    ∃ fuel c, run t inp i fuel = (Result.accept, c) := by
+  have hf := complFacts hc
+  obtain ⟨gi, hgi, hD⟩ := hsent
+  have hr := reads_take inp inp.toks.size
+  rw [List.take_of_length_le (by simp)] at hr
+  cases heoi : gi.eoi with
+  | true =>
+    refine accept_eoi hf htok hgi heoi hD hr ?_
+    apply symAt_ge
+    simp
+  | false => exact accept_noeoi hf htok hgi heoi hD hr
+
+/-- Completeness for inputs without the end-of-input requirement: if SOME prefix of the token
+string is a sentence of input `i`, the runtime model accepts. -/
+theorem C01_lr_complete_prefix (g : Grammar) (t : Tables) (cc : CCert) (inp : Input) (i n : Nat)
+    (gi : GInput) (hc : complOk g t cc = true)
+    (htok : ∀ tk ∈ inp.toks.toList, 0 < tk.sym ∧ tk.sym < (t.nTerms : Int))
+    (hgi : g.inputs[i]? = some gi) (heoi : gi.eoi = false)
+    (hsent : Sentence g i ((inp.toks.toList.take n).map (fun tk => tk.sym.toNat))) :
+    ∃ fuel c, run t inp i fuel = (Result.accept, c) := by
+  have hf := complFacts hc
+  obtain ⟨gi', hgi', hD⟩ := hsent
+  rw [hgi] at hgi'
+  injection hgi' with e
+  subst e
+  exact accept_noeoi hf htok hgi heoi hD (reads_take inp n)
+
+/-- Exactly the language: with both certificates, the runtime model accepts (for some fuel) iff
+the token string is a sentence (input with end-of-input) resp. has a prefix that is a sentence
+(input without). -/
+theorem C01_lr_exact (g : Grammar) (t : Tables) (cert : Cert) (cc : CCert) (inp : Input) (i : Nat)
+    (gi : GInput) (hs : certOk g t cert = true) (hc : complOk g t cc = true)
+    (htok : ∀ tk ∈ inp.toks.toList, 0 < tk.sym ∧ tk.sym < (t.nTerms : Int))
+    (hgi : g.inputs[i]? = some gi) :
+    (∃ fuel c, run t inp i fuel = (Result.accept, c)) ↔
+      if gi.eoi then Sentence g i (inp.toks.toList.map (fun tk => tk.sym.toNat))
+      else ∃ n, n ≤ inp.toks.size ∧
+        Sentence g i ((inp.toks.toList.take n).map (fun tk => tk.sym.toNat)) := by
+  have hi : i < g.inputs.size := by
+    rcases Nat.lt_or_ge i g.inputs.size with h | h
+    · exact h
+    · rw [Array.getElem?_eq_none h] at hgi; cases hgi
+  constructor
+  · rintro ⟨fuel, c, hrun⟩
+    obtain ⟨n, hn, hsent, hall⟩ := C01_lr_sound g t cert inp i fuel c hs htok hi hrun
+    cases heoi : gi.eoi with
+    | true =>
+      have := hall ⟨gi, hgi, heoi⟩
+      subst this
+      rw [List.take_of_length_le (by simp)] at hsent
+      simp only [↓reduceIte]
+      exact hsent
+    | false =>
+      simp only [Bool.false_eq_true, ↓reduceIte]
+      exact ⟨n, hn, hsent⟩
+  · intro h
+    cases heoi : gi.eoi with
+    | true =>
+      rw [heoi] at h
+      simp only [↓reduceIte] at h
+      exact C01_lr_complete g t cc inp i hc htok h
+    | false =>
+      rw [heoi] at h
+      simp only [Bool.false_eq_true, ↓reduceIte] at h
+      obtain ⟨n, _, hsent⟩ := h
+      exact C01_lr_complete_prefix g t cc inp i n gi hc htok hgi heoi hsent
+
+/-! Non-vacuity. (1) The tables `exT` above with the certificate computed by `mkCCert`.
+(2) Real tables of `lalr.Compile` for `E: T '+' E | T ; T: '(' E ')' | id ;` (terminals 2 `+`,
+3 `(`, 4 `)`, 5 `id`; a lookahead state; taken from a `C01 validate` case of the harness) with the
+certificate computed by `mkCCert`: `id + id` is accepted because it is a sentence. -/
+private def exCC : CCert :=
+  { items := #[[⟨0, 0, 1⟩, ⟨1, 0, 0⟩], [⟨0, 1, 1⟩], [⟨0, 2, 1⟩], [⟨0, 3, 1⟩], [⟨1, 1, 0⟩],
+               [⟨1, 2, 0⟩]],
+    nullable := [], first := #[0, 0, 0, 0, 0, 16] }
+
+example : complOk exG exT exCC = true := by decide +kernel
+
+private theorem exSent : Sentence exG 0 (exInp.toks.toList.map (fun tk => tk.sym.toNat)) :=
+  ⟨⟨5, true⟩, rfl, Derives.rule ⟨5, [4, 3, 4], 0⟩ [4, 3, 4] (by decide)
+    (.cons 4 _ [4] _ (.term 4 (by decide)) (.cons 3 _ [3] _ (.term 3 (by decide))
+      (.cons 4 _ [4] _ (.term 4 (by decide)) .nil)))⟩
+
+example : ∃ fuel c, run exT exInp 0 fuel = (Result.accept, c) :=
+  C01_lr_complete exG exT exCC exInp 0 (by decide +kernel) (by decide +kernel) exSent
+
+private def exG2 : Grammar :=
+  { nTerms := 6, nSyms := 8,
+    rules := #[⟨6, [7, 2, 6], 0⟩, ⟨6, [7], 0⟩, ⟨7, [3, 6, 4], 0⟩, ⟨7, [5], 0⟩],
+    inputs := #[⟨6, true⟩] }
+private def exT2 : Tables :=
+  { nTerms := 6, action := #[-1,-1,3,-3,-1,-1,2,0,-1,-2], lalr := #[2,-1,0,1,4,1,-1,-2],
+    goto_ := #[0,2,2,4,10,12,18,24,30],
+    fromTo := #[8,9,3,5,0,1,1,1,5,1,4,6,0,2,1,2,5,2,0,8,1,4,5,7,0,3,1,3,5,3],
+    ruleLen := #[3,1,3,1], ruleSymbol := #[6,6,7,7], finalStates := #[9] }
+private def exCC2 : CCert :=
+  { items := #[[⟨0, 0, 1⟩, ⟨1, 0, 1⟩, ⟨2, 0, 5⟩, ⟨3, 0, 5⟩, ⟨4, 0, 0⟩],
+               [⟨0, 0, 16⟩, ⟨1, 0, 16⟩, ⟨2, 0, 20⟩, ⟨2, 1, 21⟩, ⟨3, 0, 20⟩],
+               [⟨3, 1, 21⟩], [⟨0, 1, 17⟩, ⟨1, 1, 17⟩], [⟨2, 2, 21⟩],
+               [⟨0, 0, 17⟩, ⟨0, 2, 17⟩, ⟨1, 0, 17⟩, ⟨2, 0, 21⟩, ⟨3, 0, 21⟩],
+               [⟨2, 3, 21⟩], [⟨0, 3, 17⟩], [⟨4, 1, 0⟩], [⟨4, 2, 0⟩]],
+    nullable := [], first := #[0, 0, 0, 0, 0, 0, 40, 40] }
+private def exInp2 : Input := { toks := #[⟨5, 0, 1⟩, ⟨2, 1, 2⟩, ⟨5, 2, 3⟩], endOff := 3 }
+
+example : complOk exG2 exT2 exCC2 = true ∧ (mkCCert exG2 exT2).toOption = some exCC2 := by
+  refine ⟨by decide +kernel, by decide +kernel⟩
+
+private theorem exT_id : Derives exG2 7 [5] :=
+  Derives.rule ⟨7, [5], 0⟩ [5] (by decide) (.cons 5 _ [5] _ (.term 5 (by decide)) .nil)
+
+private theorem exSent2 : Sentence exG2 0 (exInp2.toks.toList.map (fun tk => tk.sym.toNat)) :=
+  ⟨⟨6, true⟩, rfl, Derives.rule ⟨6, [7, 2, 6], 0⟩ [5, 2, 5] (by decide)
+    (.cons 7 _ [5] _ exT_id (.cons 2 _ [2] _ (.term 2 (by decide))
+      (.cons 6 _ [5] _ (Derives.rule ⟨6, [7], 0⟩ [5] (by decide) (.cons 7 _ [5] _ exT_id .nil))
+        .nil)))⟩
+
+example : ∃ fuel c, run exT2 exInp2 0 fuel = (Result.accept, c) :=
+  C01_lr_complete exG2 exT2 exCC2 exInp2 0 (by decide +kernel) (by decide +kernel) exSent2
+
+/-- the incomplete tables are rejected: the same tables with the reduction `T → id .` removed from
+state 2 (`action[2] := -2`) fail condition (R). -/
+example : complOk exG2 { exT2 with action := #[-1,-1,-2,-3,-1,-1,2,0,-1,-2] } exCC2 = false := by
+  decide +kernel
+
+end completeness
 
 end TmVerif.LRSound
